@@ -26,7 +26,14 @@ MAXDIALS = 6
 # scripts from TLC behaviours
 
 def beh_to_script(mode, b, name, step_wait_ms=0):
-    sc = {"name": name, "steps": b["steps"], "expected": b.get("res"), "origin": "tlc"}
+    steps = []
+    for st in b["steps"]:
+        # Start(c) directly followed by Cancel(c): the call enters the transport with a context that has already ended
+        if st["a"] == "Cancel" and steps and steps[-1]["a"] == "Start" and steps[-1]["c"] == st["c"]:
+            steps[-1] = dict(steps[-1], precancel=True)
+            continue
+        steps.append(st)
+    sc = {"name": name, "steps": steps, "expected": b.get("res"), "origin": "tlc"}
     if step_wait_ms:
         sc["step_wait_ms"] = step_wait_ms
     return sc
@@ -241,11 +248,61 @@ def pipeline_scenarios(T):
                 "steps": fresh(1, 1) + [{"a": "Start", "c": 2}, {"a": "ExchReq", "x": 1, "c": 2}, {"a": "Start", "c": 3},
                                         {"a": "ExchReq", "x": 1, "c": 3}, {"a": "TClose"}, {"a": "UClose", "x": 1},
                                         {"a": "TCloseRet"}, {"a": "Return", "c": 2}, {"a": "Return", "c": 3}]})
+    # calls that enter with a context that has already ended must not leak capacity (cap = 2): afterwards the
+    # established connection still admits 2 concurrent queries and no extra connection is dialled
+    out.append({"name": "precancelled-on-established", "origin": "scenario",
+                "steps": fresh(1, 1) + [{"a": "Start", "c": 2, "precancel": True}, {"a": "Return", "c": 2},
+                                        {"a": "Start", "c": 3, "precancel": True}, {"a": "Return", "c": 3},
+                                        {"a": "Start", "c": 4}, {"a": "ExchReq", "x": 1, "c": 4}, {"a": "Start", "c": 5},
+                                        {"a": "ExchReq", "x": 1, "c": 5}, {"a": "ExchRet", "x": 1, "c": 4, "r": "ok"},
+                                        {"a": "ExchRet", "x": 1, "c": 5, "r": "ok"}, {"a": "Return", "c": 4}, {"a": "Return", "c": 5}]})
+    # the same on a connection that is still dialing: the early wait group must be released, later queries proceed
+    out.append({"name": "precancelled-while-dialing", "origin": "scenario",
+                "steps": [{"a": "Start", "c": 1}, {"a": "Dial", "x": 1}, {"a": "Start", "c": 2, "precancel": True},
+                          {"a": "Return", "c": 2}, {"a": "DialRet", "x": 1, "ok": True}, {"a": "ExchReq", "x": 1, "c": 1},
+                          {"a": "ExchRet", "x": 1, "c": 1, "r": "ok"}, {"a": "Return", "c": 1}, {"a": "Start", "c": 3},
+                          {"a": "ExchReq", "x": 1, "c": 3}, {"a": "Start", "c": 4}, {"a": "ExchReq", "x": 1, "c": 4},
+                          {"a": "ExchRet", "x": 1, "c": 3, "r": "ok"}, {"a": "ExchRet", "x": 1, "c": 4, "r": "ok"},
+                          {"a": "Return", "c": 3}, {"a": "Return", "c": 4}]})
+    # queue limit 2 while dialing: queue full, one queued call cancelled, one more queued, then a further query must
+    # go to a second connection while the first dial is still pending ("Parked" = it is observed to queue instead)
+    out.append({"name": "queue-limit-after-cancel-while-dialing", "origin": "scenario", "repeat": 2,
+                "steps": [{"a": "Start", "c": 1}, {"a": "Dial", "x": 1}, {"a": "Start", "c": 2}, {"a": "Sleep", "ms": 10},
+                          {"a": "Cancel", "c": 2}, {"a": "Return", "c": 2}, {"a": "Start", "c": 3}, {"a": "Parked", "c": 3},
+                          {"a": "Start", "c": 4}, {"a": "Parked", "c": 4, "dials": 2}, {"a": "Dial", "x": 2},
+                          {"a": "DialRet", "x": 1, "ok": True}, {"a": "ExchReq", "x": 1, "c": 1}, {"a": "ExchReq", "x": 1, "c": 3},
+                          {"a": "DialRet", "x": 2, "ok": True}, {"a": "ExchReq", "x": 2, "c": 4},
+                          {"a": "ExchRet", "x": 1, "c": 1, "r": "ok"}, {"a": "ExchRet", "x": 1, "c": 3, "r": "ok"},
+                          {"a": "ExchRet", "x": 2, "c": 4, "r": "ok"}]})
+    # a joiner on a dialing connection opened for another query; the dial fails with an error that wraps a context
+    # error (the dialer's own deadline): the joiner's context is alive, it must be retried on another connection
+    out.append({"name": "joiner-dial-fails-with-wrapped-ctx-error", "origin": "scenario",
+                "steps": [{"a": "Start", "c": 1}, {"a": "Dial", "x": 1}, {"a": "Start", "c": 2}, {"a": "Sleep", "ms": 20},
+                          {"a": "DialRet", "x": 1, "ok": False, "err": "ctxwrap"}, {"a": "Return", "c": 1},
+                          {"a": "Dial", "x": 2}, {"a": "DialRet", "x": 2, "ok": True}, {"a": "ExchReq", "x": 2, "c": 2},
+                          {"a": "ExchRet", "x": 2, "c": 2, "r": "ok"}, {"a": "Return", "c": 2}]})
+    # the dialled connection is dead on arrival: early callers are refused; the joiner is retried on a fresh
+    # connection, nothing hangs, later calls proceed
+    out.append({"name": "dead-on-arrival-with-early-callers", "origin": "scenario",
+                "steps": [{"a": "Start", "c": 1}, {"a": "Dial", "x": 1}, {"a": "Start", "c": 2}, {"a": "Sleep", "ms": 20},
+                          {"a": "DialRet", "x": 1, "ok": True, "dead": True}, {"a": "Return", "c": 1},
+                          {"a": "Dial", "x": 2}, {"a": "DialRet", "x": 2, "ok": True}, {"a": "ExchReq", "x": 2, "c": 2},
+                          {"a": "ExchRet", "x": 2, "c": 2, "r": "ok"}, {"a": "Return", "c": 2},
+                          {"a": "Start", "c": 3}, {"a": "ExchReq", "x": 2, "c": 3}, {"a": "ExchRet", "x": 2, "c": 3, "r": "ok"},
+                          {"a": "Return", "c": 3}]})
     # hanging dial: the lazy connection's own 5 s (real time) dial context ends it
     out.append({"name": "dial-hang-5s", "origin": "scenario", "slow": True,
                 "steps": [{"a": "Start", "c": 1}, {"a": "Dial", "x": 1}, {"a": "Start", "c": 2}, {"a": "DialHang", "x": 1},
                           {"a": "Return", "c": 1}]})
     return out
+
+
+def pipeline_cap1_scenarios(T):
+    """the dialled connection has a smaller limit (1) than the dial queue (2): one early caller is refused and must
+    be retried on another connection; nothing may hang.  Validated with LazyPipeline_Trace_cap1.cfg."""
+    return [{"name": "cap1-early-caller-refused", "origin": "scenario", "cap": 1, "repeat": 2,
+             "steps": [{"a": "Start", "c": 1}, {"a": "Dial", "x": 1}, {"a": "Start", "c": 2}, {"a": "Sleep", "ms": 20},
+                       {"a": "DialRet", "x": 1, "ok": True}, {"a": "Dial", "x": 2}, {"a": "DialRet", "x": 2, "ok": True}]}]
 
 
 # ---------------------------------------------------------------------------
@@ -284,6 +341,8 @@ def shape(mode, rec, info):
         if ev.get("vc") not in (None, c):
             return "%s:foreign-reply-returned" % mode
         return "%s:success-not-explained:writes=%d:dials=%d" % (mode, nwrites, ndial)
+    if mode == "pipeline" and ev.get("ev") == "Parked":
+        return "pipeline:queued-on-dialing-connection-beyond-its-queue-limit"
     if mode == "reuse" and ev.get("ev") == "CloseReq" and info.get("line_in_trace", 0) >= 2:
         prev = [e for e in evs[:info["line_in_trace"] - 1] if e.get("x") == ev.get("x")]
         if prev and prev[-1]["ev"] == "ReadRet" and prev[-1].get("k") == "reply":
